@@ -314,3 +314,7 @@ func VerifC17Rejected(pr []ConfigurationProblem) bool {
 	}
 	return false
 }
+
+// AddSecret puts a Secret into the real LocalSecretStore (what syncSecret does for a
+// referenced secret).
+func (v *VerifC17) AddSecret(s *api_v1.Secret) { v.lbc.secretStore.AddOrUpdateSecret(s) }
